@@ -68,10 +68,14 @@ def static_plan(cfg, rng):
             preds[e["v"]].append((e["u"], e["vol"]))
         free = {m: 0 for m in mach}
         eft, where = {}, {}
+        # an unusual but legal plan: everything on one machine, parallel branches
+        # booked for overlapping slots while the other machines stay idle in the
+        # plan (a plan-following policy then serialises them on that machine)
+        stack = len(mach) >= 2 and rng.random() < 0.12
         for k in topo_order(wf):
-            m = rng.choice(sorted(mach))
+            m = sorted(mach)[0] if stack else rng.choice(sorted(mach))
             rt = max(nodes[k]["comp"] // mach[m]["cpu"], nodes[k]["data"] // mach[m]["bw"], 1)
-            est = free[m]
+            est = 0 if stack else free[m]
             for (p, vol) in preds[k]:
                 arr = eft[p] + (0 if where[p] == m else -(-vol // mach[m]["bw"]))
                 est = max(est, arr)
@@ -295,7 +299,8 @@ def random_cfg(rng, alg=None, family="roomy", nobs=None, maxn=4):
         # a quiet gap: everything before the last observation has drained when it falls due
         obs[-1]["est"] += rng.randint(8, 14)
     if len(obs) > 1 and rng.random() < 0.15:
-        obs[1]["o"] = "b_x"      # observation names may contain underscores
+        # observation names may contain underscores and extend one another
+        obs[1]["o"] = rng.choice(["b_x", "a_x", "a_2"])
     if len(obs) > 1 and rng.random() < 0.3:
         # two pipelines using one and the same workflow
         import copy as _copy
